@@ -499,7 +499,8 @@ __result = __json.dumps({call_code})
 
 """
     if not _is_pyodide:
-        code += f"\nprint(__json.dumps({call_code}))\n"
+        # (the value computed above: the call is evaluated once)
+        code += "\nprint(__result)\n"
     if code in _eval_constexpr_cache:
         return _eval_constexpr_cache[code]
 
